@@ -4,6 +4,11 @@ import json, os, subprocess
 V = os.path.dirname(os.path.dirname(os.path.abspath(__file__)))
 checks = json.load(open(os.path.join(V, "checks.json")))
 claims = json.load(open(os.path.join(V, "tools", "claims.json")))
+import glob
+for f in sorted(glob.glob(os.path.join(V, "tools", "parts", "*.check.json"))):
+    checks.update(json.load(open(f)))
+for f in sorted(glob.glob(os.path.join(V, "tools", "parts", "*.claim.json"))):
+    claims.update(json.load(open(f)))
 props = [json.loads(l) for l in open(os.path.join(V, "properties.jsonl"))]
 hooks_commits = []
 try:
